@@ -97,7 +97,17 @@ class StreamProp(E2Prop):
                     pre, chunks = chunks[0], chunks[1:]
                 nreads = len(sc['frames']) + (len(chunks) if wb else 0) + 3
                 rbs = rng.choice([0, 1, 2, 5, 6, 13, 14, 15, 64, 4096, 131072]) if self.seg_all else 4096
-                out.append(gen_streams.reader_case('s%d_%d' % (i, j), sc['role'], chunks, nreads, au=sc['au'], rbs=rbs, pre=pre, wb_between=wb))
+                line = gen_streams.reader_case('s%d_%d' % (i, j), sc['role'], chunks, nreads, au=sc['au'], rbs=rbs, pre=pre, wb_between=wb)
+                if rng.random() < 0.25:
+                    # what is read does not depend on what the user does in between: own close, writes, flushes at random points
+                    f = line.split(' ')
+                    ops = f[11].split(',')
+                    for _ in range(rng.randint(1, 3)):
+                        ops.insert(rng.randint(0, len(ops)), rng.choice(['c:-', 'c:1000:6279', 'c:-', 'wt:6869', 'wpi:70', 'f']))
+                    f[11] = ','.join(ops)
+                    f[13] = ','.join(['a:100000'] * 12)
+                    line = ' '.join(f)
+                out.append(line)
         return out
     def monitor(self, case_line, trace, mline):
         case, ots = self.parse(case_line, trace)
@@ -290,6 +300,13 @@ class C08(StreamProp):
                 out.append(gen_streams.reader_case('t%d' % k, role, [b''.join(frames)], 3)); k += 1
             # close reason
             out.append(gen_streams.reader_case('t%d' % k, 'c', [gen_e2.peer_frame('c', 8, gen_e2.close_payload(1000, s[:100]))], 2)); k += 1
+        # close reasons at and near the largest legal size (123 bytes) ending in a truncated or complete multi-byte character
+        for tail_ in (b'\xc3', b'\xe2', b'\xe2\x82', b'\xf0', b'\xf0\x9f', b'\xf0\x9f\x98', b'\xc3\xa9', b'\xe2\x82\xac', b'\xf0\x9f\x98\x80', b'\x80', b'\xff'):
+            for total in (len(tail_), 60, 120, 121, 122, 123):
+                if total < len(tail_): continue
+                for role in 'sc':
+                    reason = b'r' * (total - len(tail_)) + tail_
+                    out.append(gen_streams.reader_case('t%d' % k, role, [gen_e2.peer_frame(role, 8, gen_e2.close_payload(1000, reason))], 2)); k += 1
         # a multi-byte character cut by fragments that are valid (or empty) on their own
         for ch in ('é', '€', '\U0001F600'):
             b = ch.encode()
@@ -430,7 +447,7 @@ class C01(E2Prop):
             for chunks in ([wire], gen_streams.segmentations(rng, wire)[-1]) + (([bytes([b]) for b in wire],) if len(wire) < 400 else ()):
                 rbs = rng.choice([0, 1, 2, 5, 14, 64, 4096, 131072])
                 out.append(ws.scase_line('r%d' % k, rrole, ['r'] * (len(msgs) + 2), ['d:' + ws.hx(c) for c in chunks if c], [], [], rbs=rbs,
-                                         mms=None, mfs=None)); k += 1
+                                         mms=None, mfs=None, au=(k % 3 == 0))); k += 1
         for role in 'sc':
             for n_ in ((2**18 + 1,) if tier == 'quick' else (2**18, 2**18 + 1, 2**20 + 3)):
                 for wr in (['e:wb'], ['a:10', 'e:wb'], []):
@@ -462,7 +479,7 @@ class C01(E2Prop):
 
 class C09(E2Prop):
     id = 'C09'
-    rule = ('all message kinds x payload sizes 0..=300 (exhaustive in thorough) and the boundary set up to 70000 x both roles, plus histories with automatic replies (ping->pong, close->reply, 1005->1002); '
+    rule = ('all message kinds x payload sizes 0..=300 (exhaustive in thorough) and the boundary set up to 70000 x both roles, plus histories with automatic replies (ping->pong, close->reply, 1005->1002), raw frames with a preset masking key; '
             'every accepted byte stream parsed by an independent frame parser')
     level_text = 'wire ++ out_buffer always parses as complete frames with FIN, RSV=0, right opcode, shortest length, mask iff client with payload XOR key (theorem for all histories and every key sequence); auto replies <= 125 bytes'
     level_note = 'Trusted: Coq kernel, Protocol.v, correspondence; key unpredictability is a property of rand (partial, statistical support test with the hook off)'
@@ -477,6 +494,15 @@ class C09(E2Prop):
                     out.append(ws.scase_line('m%d' % k, role, [msg_op(kind, payload), 'f'], [], [], [], seed=rng.randint(0, 2**32 - 1))); k += 1
         for i in range(800 if tier == 'quick' else 8000):
             out.append(gen_e2.random_history(rng, 'h%d' % i, long=(i % 4 == 0)))
+        # raw frames (Message::Frame) that arrive with a masking key already in their header (e.g. relayed from FrameSocket::read):
+        # a client must still draw a fresh key for each of them
+        for n in (0, 1, 5, 125, 126, 300):
+            for opc in (1, 2, 9, 10):
+                if opc >= 9 and n > 125: continue
+                for preset in ('a1b2c3d4', '00000000', 'ffffffff'):
+                    ops = ['wf:1000:%d:%s:%s' % (opc, preset, ws.hx(bytes((i * 7 + n) & 255 for i in range(n)))), 'wt:6869',
+                           'wf:1000:2:%s:0102' % preset, 'f']
+                    out.append(ws.scase_line('rw%d' % k, 'c', ops, [], [], [], seed=rng.randint(0, 2**32 - 1))); k += 1
         # automatic replies to peer control frames at and around the 125-byte limit
         for role in 'sc':
             for n in (0, 1, 124, 125, 126, 127, 200):
@@ -611,7 +637,7 @@ class C10(E2Prop):
 
 class C11(E2Prop):
     id = 'C11'
-    rule = ('ping sequences (payloads 0, 2, 3, 124, 125 bytes; 1-4 pings, several per segment) interleaved with data and user pongs x all read/write/flush patterns up to length 5 (sampled in quick) x WouldBlock on any write or flush, both roles, unlimited buffer')
+    rule = ('ping sequences (payloads 0, 2, 3, 124, 125 bytes; 1-4 pings, several per segment) interleaved with data and user pongs x all read/write/flush patterns up to length 5 (sampled in quick) x WouldBlock on any write or flush, both roles, unlimited buffer; automatic pong already buffered behind a blocked transport when the user writes a pong/text, then read-only or flush-only tails')
     level_text = 'pong pending-until-sent invariant, order/no-invention, sent by the next successful call, WouldBlock postpones (theorems over all histories)'
     level_note = 'Trusted: Coq kernel, Protocol.v, correspondence'
     def generate(self, tier, rng):
@@ -637,6 +663,17 @@ class C11(E2Prop):
                 out.append(gen_e2.history('p%d' % k, role, ops, peer, wpat, fpat, 0, None, tail=1)); k += 1
         for i in range(500 if tier == 'quick' else 5000):
             out.append(gen_e2.random_history(rng, 'h%d' % i, tight_prob=0.0))
+        # the automatic pong is already in the write buffer (its first transport write blocked) when the user writes a pong of
+        # their own on the still-blocked transport; afterwards only reads (or only flushes): both pongs must reach the wire
+        for role in 'sc':
+            for ping in (b'', b'ab', b'p' * 125):
+                pf = gen_e2.peer_frame(role, 9, ping)
+                for nblock in (2, 3, 4):
+                    for mid in (['wpo:71'], ['wpo:71', 'wpo:72'], ['wt:6869'], ['wpo:71', 'wt:6869']):
+                        for tail_op in ('r', 'f'):
+                            for fl in ([], ['e:wb']):
+                                ops = ['r', 'r'] + mid + [tail_op] * 5
+                                out.append(ws.scase_line('u%d' % k, role, ops, ['d:' + ws.hx(pf)], ['e:wb'] * nblock + ['a:100000'] * 8, fl + ['ok'] * 10)); k += 1
         return reid(self.corpus() + out)
     def monitor(self, case_line, trace, mline):
         case, ots = self.parse(case_line, trace)
@@ -644,7 +681,7 @@ class C11(E2Prop):
 
 class C12(E2Prop):
     id = 'C12'
-    rule = ('all 65536 status codes x reasons {empty, "x", 123 bytes} (thorough: exhaustive; quick: every code with one reason) x state when the Close arrives {active, closed-by-us} x pending pong or not x both roles')
+    rule = ('all 65536 status codes x reasons {empty, "x", 123 bytes} (thorough: exhaustive; quick: every code with one reason) x state when the Close arrives {active, closed-by-us} x pending pong or not x both roles; reply blocked at read and at an explicit flush/close, then read-only or flush-only tails')
     level_text = 'reply = reported (own code if allowed, else 1002), exactly one Close, never displaced by a pong, acknowledgement unchanged and unanswered (theorems for all codes/reasons/states)'
     level_note = 'Trusted: Coq kernel, Protocol.v/Coding.v/Frame.v, correspondence (exhaustive over codes)'
     def exhaustive(self, tier):
@@ -687,6 +724,17 @@ class C12(E2Prop):
                             reply = (2 + len(reason)) if ws.close_allowed(code) else 20
                             out.append(ws.scase_line('t%d' % k, role, ['wb:' + ws.hx(data), 'r', 'r', 'f', 'f', 'f', 'f'], rds,
                                                      ['e:wb', 'e:wb', 'e:wb'], [], max_=max(mx, gen_e2.frame_size(role, reply)))); k += 1
+        # the reply is blocked when read queues it, an explicit flush/close is blocked too, then only reads (or only flushes) follow:
+        # the one reply must still reach the wire once the transport accepts
+        for role in 'sc':
+            for code, reason in ((1000, b''), (1000, b'bye'), (1005, b''), (3000, b'x' * 123), (None, b'')):
+                fr = gen_e2.peer_frame(role, 8, gen_e2.close_payload(code, reason) if code is not None else b'')
+                for mid in (['f'], ['c:-'], ['f', 'c:-'], ['c:1000:6279'], ['f', 'f']):
+                    for nblock in (1, 2, 3):
+                        for tail_op in ('r', 'f'):
+                            for fl in ([], ['e:wb'], ['e:wb', 'e:wb']):
+                                ops = ['r'] + mid + [tail_op] * 5
+                                out.append(ws.scase_line('b%d' % k, role, ops, ['d:' + ws.hx(fr)], ['e:wb'] * nblock + ['a:100000'] * 6, fl + ['ok'] * 8)); k += 1
         return reid(self.corpus() + out)
     def monitor(self, case_line, trace, mline):
         case, ots = self.parse(case_line, trace)
